@@ -578,6 +578,32 @@ func distinctTerms(n int) []*term {
 				count("sibling_terms")
 			}
 		}
+		if len(out) >= 2 && rng.Intn(12) == 0 {
+			// a reference whose text is the CONCATENATION of two other terms' texts (keys built by joining strings without a
+			// separator, hashes fed piecewise): LicenseRef-a, MIT, LicenseRef-aMIT
+			a, b := out[rng.Intn(len(out))], out[rng.Intn(len(out))]
+			name := ""
+			switch {
+			case a.isRef && a.doc == "":
+				name = a.ref + refSafe(b.text)
+			case b.isRef && b.doc == "":
+				name = refSafe(a.text) + b.ref
+			default:
+				name = refSafe(a.text) + refSafe(b.text)
+			}
+			c := mkRefTerm("", name)
+			if a.isRef && a.doc == "" && implValid(c.text) {
+				t = c
+				count("concatenation_refs")
+			} else if b.isRef && !a.isRef {
+				// LicenseRef-x and a licence id: the id text followed by the reference text cannot be one term; use the other order
+				c = mkRefTerm("", b.ref+refSafe(a.text))
+				if implValid(c.text) {
+					t = c
+					count("concatenation_refs")
+				}
+			}
+		}
 		if seen[t.text] {
 			continue
 		}
@@ -585,6 +611,24 @@ func distinctTerms(n int) []*term {
 		out = append(out, t)
 	}
 	return out
+}
+
+// refSafe: the bytes of a term's text that may stand in a reference name (letters, digits, '-', '.')
+func refSafe(s string) string {
+	var b []byte
+	for i := 0; i < len(s); i++ {
+		c := s[i]
+		if c >= 'a' && c <= 'z' || c >= 'A' && c <= 'Z' || c >= '0' && c <= '9' || c == '-' || c == '.' {
+			b = append(b, c)
+		}
+	}
+	return string(b)
+}
+
+func mkRefTerm(doc, ref string) *term {
+	t := &term{isRef: true, doc: doc, ref: ref, caseMod: -1}
+	t.build()
+	return t
 }
 
 func texts(ts []*term) []string {
